@@ -11,7 +11,7 @@ git -C $W apply $D/patch.diff || { echo "patch does not apply"; git -C /repo wor
 echo "== mutated demo:"; (cd $W && timeout 900 /venv/bin/python $D/demo.py >/tmp/demo_mut.log 2>&1; echo "exit=$?"; tail -2 /tmp/demo_mut.log | cut -c1-200)
 for P in "$@"; do
   echo "== check $P quick on mutated tree:"
-  (cd /verif && VERIF_PGMPY_PATH=$W VERIF_REPLAY_DIR=/tmp/mutreplays ./check $P quick > /tmp/mut_$P.log 2>&1; echo "exit=$?"; grep -c "^VIOLATION" /tmp/mut_$P.log; grep -A1 "^VIOLATION" /tmp/mut_$P.log | grep site= | sed 's/case=.*//' | sort | uniq -c | head -6; tail -1 /tmp/mut_$P.log | cut -c1-200)
+  (cd /verif && VERIF_PGMPY_PATH=$W VERIF_EVIDENCE_DIR=/tmp/mutevidence VERIF_REPLAY_DIR=/tmp/mutreplays ./check $P quick > /tmp/mut_$P.log 2>&1; echo "exit=$?"; grep -c "^VIOLATION" /tmp/mut_$P.log; grep -A1 "^VIOLATION" /tmp/mut_$P.log | grep site= | sed 's/case=.*//' | sort | uniq -c | head -6; tail -1 /tmp/mut_$P.log | cut -c1-200)
 done
 git -C /repo worktree remove --force $W
 echo "== worktree removed"
